@@ -5,7 +5,7 @@ pid, wt = sys.argv[1], sys.argv[2]
 wave = sys.argv[3] if len(sys.argv) > 3 else ""
 import glob, os
 used = []
-for d in sorted(glob.glob(f"/verif/seeded/{pid}-m*")):
+for d in sorted(glob.glob(f"/verif/seeded/{pid}-*m?")):
     try: used.append("- " + json.load(open(os.path.join(d, "meta.json")))["breaks"][:260])
     except Exception: pass
 
